@@ -88,6 +88,13 @@ impl<C: SymBridge> Lab<C> for SymLab<C> {
         symcore::prefer_pivot(s);
         C::s_in(s)
     }
+    fn adv_scalar_among(&mut self, name: &str, candidates: &[Scalar<C>]) -> Scalar<C> {
+        let v = self.adv_scalar(name);
+        let cs: Vec<u32> = candidates.iter().map(|c| C::s_out(*c).0).collect();
+        let vi = C::s_out(v).0;
+        symcore::with(|c| c.adv_candidates.push((name.to_string(), vi, cs)));
+        v
+    }
     fn adv_element(&mut self, name: &str) -> Element<C> {
         let s = S::var(&format!("dlog({name})"));
         self.adv.push(s.0);
@@ -201,6 +208,15 @@ impl<C: SymBridge> Lab<C> for SymLab<C> {
             let det = format!("{} vs {}: {what}", c.describe(a.0, 2), c.describe(b.0, 2));
             c.record("EN", "entailment query on the current path", true, det);
         });
+        if r.is_none() {
+            // neither outcome is entailed (this does not happen on the unchanged tree, where the
+            // code under test has itself compared the two): explore both, so that a failing
+            // obligation downstream comes with a model in which the relation is pinned
+            let old = symcore::set_policy(symcore::Policy::Fork);
+            let eq = a == b;
+            symcore::set_policy(old);
+            return Some(eq);
+        }
         r
     }
     fn holds_eq_e(&mut self, a: Element<C>, b: Element<C>) -> Option<bool> {
